@@ -35,8 +35,10 @@ for p in props:
 m = {
     "version": 1,
     "setup_cmd": "./setup.sh",
-    "hooks": {"guard": "GUDHI_VERIF_HOOKS", "enable": "harnesses are compiled with -DGUDHI_VERIF_HOOKS; no hook is currently needed (all observations go through public members)",
-              "baseline_off_cmd": "ctest --test-dir /repo/_build -j8 --timeout 900", "source_commits": [], "add_only": True},
+    "hooks": {"guard": "GUDHI_VERIF_HOOKS", "enable": "harnesses are compiled with -DGUDHI_VERIF_HOOKS (vlib/core.py build_harness); one hook exists: "
+                                               "src/Ripser/include/gudhi/ripser.h records which simplex encoding help1 selected "
+                                               "(verif_hook_last_encoding, add-only, 13 lines); every other observation goes through public members",
+              "baseline_off_cmd": "ctest --test-dir /repo/_build -j8 --timeout 900", "source_commits": ["80f8c1166"], "add_only": True},
     "engines": [{"name": "coq+correspondence", "path": "/verif/check", "serves_properties": sorted(c["property_id"] for c in checks),
                  "kind_free_text": "Coq 8.16.1 development under /verif/coq (models, proofs, Properties_<id>.v), extraction to OCaml oracles, "
                                    "C++ harnesses compiled against /repo's working tree, differential comparison"}],
